@@ -47,7 +47,12 @@ def setup(prune=False):
     os.environ['TIDALPY_VERIF'] = '1'
     os.environ['PYTHONHASHSEED'] = os.environ.get('PYTHONHASHSEED', '0')
     key = source_hash()
-    cache_dir = os.path.join(NBCACHE, key)
+    # One numba cache directory per (source hash, process role): every directory has a single writer.  A cache shared by the
+    # 16 shard processes of a cold run ended up - rarely, but reproducibly kept once it happened - with an entry whose machine
+    # code segfaults or raises bogus assertions when loaded (index consistent, data file bad; never seen single-process;
+    # flock on the index and per-function compile locks did not prevent it).  Roles: '<ID>-parent', '<ID>-shardNN', '<ID>-worker'.
+    role = os.environ.get('VERIF_CACHE_ROLE', 'main')
+    cache_dir = os.path.join(NBCACHE, key, role)
     os.environ['NUMBA_CACHE_DIR'] = cache_dir
     if prune and os.path.isdir(NBCACHE):
         for d in os.listdir(NBCACHE):
@@ -111,6 +116,47 @@ def make_numba_cache_process_safe():
     cls.save = save
     cls.load = load
     cls._verif_locked = True
+    # Second layer: serialise whole compilations across processes.  Even with the index lock a few percent of shard
+    # processes in cold 16-shard runs ended up with a corrupt `calculate_terms` (bogus AssertionError / IndexError for the rest
+    # of that process; never single-process, never warm; root cause unknown).  With one process compiling a given function at a time the
+    # others find the finished entry in the cache when their turn comes (Dispatcher.compile looks in the cache first).
+    try:
+        import hashlib as _hl
+        from numba.core import dispatcher
+        held = {}
+        orig_compile = dispatcher.Dispatcher.compile
+
+        def compile_locked(self, sig):
+            # one lock per jitted function: different functions still compile in parallel, one function is compiled by one
+            # process at a time (callers take their lock before their callees' => no cycles for the DAG-shaped call graph)
+            try:
+                name = '%s.%s' % (self.py_func.__module__, self.py_func.__qualname__)
+            except Exception:
+                name = repr(self)
+            if name in held:
+                return orig_compile(self, sig)
+            fd = None
+            try:
+                lock_dir = os.path.join(os.environ.get('NUMBA_CACHE_DIR') or '/tmp', 'verif-locks')
+                os.makedirs(lock_dir, exist_ok=True)
+                fd = os.open(os.path.join(lock_dir, _hl.sha1(name.encode()).hexdigest()[:20]), os.O_CREAT | os.O_RDWR, 0o644)
+                fcntl.flock(fd, fcntl.LOCK_EX)
+            except OSError:
+                fd = None
+            held[name] = fd
+            try:
+                return orig_compile(self, sig)
+            finally:
+                held.pop(name, None)
+                if fd is not None:
+                    try:
+                        fcntl.flock(fd, fcntl.LOCK_UN)
+                    finally:
+                        os.close(fd)
+
+        dispatcher.Dispatcher.compile = compile_locked
+    except Exception:
+        pass
 
 
 def quiet_tidalpy():
